@@ -182,3 +182,60 @@ func H_C06_rolling() {
 	vAssert(len(gate.got)+int(inner.GetDiscardCounter()) == 3, "delivered-plus-discarded-equals-submitted")
 	vReach("end")
 }
+
+//verif:witness H_C06_rolling_order end
+//verif:bound C06 all rolling-file logger in async mode (Block policy, capacity 4) writing to its real file appender in the file-system model: every sequence of 3 items (event or raw write) submitted by one goroutine appears in the file in submission order after Stop
+//verif:engine-only H_C06_rolling_order
+func H_C06_rolling_order() {
+	vOpt("loop", 400)
+	vOpt("chancap", 4)
+	root := vFSRoot()
+	defer vFSCleanup()
+	dir := root + "/logs"
+	vFSMkdir(dir)
+	all := LevelRange{MinLevel: NoneLevel, MaxLevel: MaxLevel}
+	rl := &RollingFileLogger{LoggerBase: LoggerBase{Name: "r", Level: all}, FileDir: dir, FileName: "r", Rotation: TimeRotation{Interval: time.Hour}, MaxAge: 168,
+		AsyncWrite: true, BufferSize: 100, BufferFullPolicy: BufferFullPolicyBlock}
+	if err := rl.Start(); err != nil {
+		panic(err)
+	}
+	var kinds [3]int
+	for i := 0; i < 3; i++ {
+		kinds[i] = vChoose("item", 2)
+		mark := byte('1' + i)
+		if kinds[i] == 0 {
+			e := GetEvent()
+			e.Level, e.Line, e.Tag = InfoLevel, i, "_t_x"
+			e.Fields = []Field{String("k", string([]byte{'E', mark}))}
+			rl.Append(e)
+		} else {
+			rl.Write([]byte{'R', mark, '\n'})
+		}
+	}
+	rl.Stop()
+	var content []byte
+	for _, n := range vFSNames(dir) {
+		c, _ := vFSRead(dir, n)
+		content = append(content, c...)
+	}
+	// the marks must appear in the order 1, 2, 3, each once
+	pos := 0
+	for i := 0; i < 3; i++ {
+		want := []byte{'E', byte('1' + i)}
+		if kinds[i] == 1 {
+			want[0] = 'R'
+		}
+		found := -1
+		for k := pos; k+1 < len(content); k++ {
+			if content[k] == want[0] && content[k+1] == want[1] {
+				found = k
+				break
+			}
+		}
+		vAssert(found >= 0, "items-of-one-goroutine-appear-in-submission-order")
+		if found >= 0 {
+			pos = found + 2
+		}
+	}
+	vReach("end")
+}
